@@ -107,10 +107,11 @@ def diag_class(r, scratch=''):
         return 'ubsan:' + re.sub(r'[-+]?\d[\d.e+x]*', 'N', t)[:70]
     lines = [l for l in err.split('\n') if l.strip()]
     if not lines: return ''
-    l = lines[0]
+    l = lines[-1]                       # warnings and library messages come first, the fatal diagnostic last
     l = re.sub(r'^u_lexdump: ', '', l)
     if scratch: l = l.replace(scratch, '')
     l = re.sub(r': [^:\s]*::\d+$', '', l)
+    l = re.sub(r"`[^']*'", "`..'", l)
     l = re.sub(r"'[^']*'", "'..'", l)
     m = re.match(r'.*: (No such file or directory|Is a directory|Not a directory|Permission denied|File name too long|Too many levels of symbolic links)$', l)
     if m: return 'open: ' + m.group(1)
@@ -562,7 +563,7 @@ DEVLINES = [b'device "dx" "%s" "/dev/null"\n', b'device "dx" "%s" "/dev/null" "9
 TOPLINES = [b'alias "al" "n0"\n', b'alias "al" "bogus"\n', b'alias "al" "n[0-"\n', b'alias "n0" "n0"\n', b'listen "0.0.0.0:10101"\n', b'listen ""\n', b'plug_log_level "debug"\n', b'plug_log_level "bogus"\n',
             b'tcpwrappers\n', b'tcpwrappers yes\n', b'tcpwrappers no\n', b'node "n[1-3]" "d0"\n', b'node "n1" "d0" "1"\n', b'node "n[1-2]" "d0" "[1-3]"\n', b'node "n[3-1]" "d0"\n', b'node "n0" "d0"\n',
             b'node "x[1-100000]" "d0"\n', b'node "n1" "nosuchdev"\n', b'node "" "d0"\n', b'node "n5" "d0" ""\n', b'node "a,b" "d0" "1,1"\n', b'include "/nonexistent"\n', b'include "/"\n', b'include\n', b'include "\n',
-            b'include x\n', b'include ""\n']
+            b'include x\n', b'include ""\n', b'include "/dev/zero"\n', b'include "/dev/null"\n']
 
 
 def corpus():
@@ -685,6 +686,18 @@ def regression_corpus():
     return out
 
 
+def split_include(R, text):
+    """move a slice of the text into a second file and include it at that place (at token or at arbitrary byte boundaries,
+    so that strings, comments and statements may straddle the end of the included file)"""
+    if R.random() < 0.5:
+        toks = TOKEN_RE.findall(text); a = R.randrange(len(toks) + 1); b = R.randint(a, len(toks))
+        head, mid, rest = b''.join(toks[:a]), b''.join(toks[a:b]), b''.join(toks[b:])
+    else:
+        a = R.randrange(len(text) + 1); b = R.randint(a, len(text)); head, mid, rest = text[:a], text[a:b], text[b:]
+    inc = R.choice([b'\ninclude "@INC@"\n', b' include "@INC@" ', b'\ninclude\t"@INC@"\n', b'include "@INC@"'])
+    return head + inc + rest, mid
+
+
 def fuzz_unit(args):
     seed, n = args
     R = random.Random(seed)
@@ -693,8 +706,9 @@ def fuzz_unit(args):
     cases = []; paths = []
     if seed % 8 == 0 or n <= 0:                                    # the regression corpus rides along with every eighth unit
         for name, text, exp in regression_corpus():
-            cases.append((text, 'regression: ' + name, exp)); paths.append(sc.write('r%d.conf' % len(cases), text))
+            cases.append((text, 'regression: ' + name, exp, None)); paths.append(sc.write('r%d.conf' % len(cases), text))
     for i in range(max(n, 0)):
+        extra = None
         if R.random() < 0.06:
             text = bytes(R.randrange(256) for _ in range(R.choice([0, 1, 7, 100, 5000, 20000]))) if R.random() < 0.6 else \
                 b' '.join(R.choice(KEYWORDS + [b'"s"', b'1', b'"/bin/true |&"']) for _ in range(R.randint(1, 200)))
@@ -703,15 +717,21 @@ def fuzz_unit(args):
             name, text, spec = R.choice(cor)
             text = text + TAIL.replace(b'%s', spec)
             how = []
-            for _ in range(R.choice([1, 1, 1, 2, 2, 3, 5])):
+            for _ in range(R.choice([0, 1, 1, 1, 2, 2, 3, 5])):
                 text, h = mutate(R, text, spec); how.append(re.sub(r'\d+', 'N', h))
-        cases.append((text, how, None)); paths.append(sc.write('m%d.conf' % i, text))
+            if R.random() < 0.08 and b'@INC@' not in text:
+                text, extra = split_include(R, text); how.append('move a slice into an included file')
+            if not how: how = ['unchanged shipped file']
+        cases.append((text, how, None, extra))
+        if extra is not None: text = text.replace(b'@INC@', sc.write('m%d.inc' % i, extra).encode())
+        paths.append(sc.write('m%d.conf' % i, text))
     res = run_batch('file', paths)
     st = collections.Counter(); V = []; seen = set(); slow = 0
-    for i, ((text, how, exp), r) in enumerate(zip(cases, res)):
-        seen.add(text)
-        rp = dict(layer='config-lexer', kind='file', seed=seed, index=i, how=how, text=base64.b64encode(text).decode() if len(text) < 200000 else None)
-        s = c18_predicate(r, text, sc.d)
+    for i, ((text, how, exp, extra), r) in enumerate(zip(cases, res)):
+        seen.add(text + (extra or b''))
+        rp = dict(layer='config-lexer', kind='file', seed=seed, index=i, how=how, text=base64.b64encode(text).decode() if len(text) < 200000 else None,
+                  extra=base64.b64encode(extra).decode() if extra is not None else None)
+        s = c18_predicate(r, text + (extra or b''), sc.d)
         cls = diag_class(r, sc.d)
         if s: V.append(dict(sig=s, how=how, size=len(text), detail=(brief(r['err']) or r['out'][-300:]), replay=rp))
         slow = max(slow, r['ms'])
@@ -720,12 +740,15 @@ def fuzz_unit(args):
             ok = (exp[0] == 'OK' and r['exit'] == 0 and (' mps=%s ' % exp[1]) in r['out']) or (exp[0] == 'reject' and r['exit'] == 1 and cls == exp[1])
             if not ok: V.append(dict(sig='C18 regression: ' + how[12:].split(' (')[0][:60], want=exp, got=(r['out'] or r['err'])[-300:], replay=rp))
             continue
-        if r['exit'] == 0 and r['out'].startswith('OK '): st['fuzz outcome: accepted (OK, start-up steps pass)'] += 1
+        if r['exit'] == 0 and r['out'].startswith('OK '):
+            st['fuzz outcome: accepted (OK, start-up steps pass)'] += 1
+            if ' tmo=0 ' in r['out']: st['observation: accepted with a device timeout of 0 (no `timeout` in the specification; not an abort)'] += 1
+            if re.search(r' tmo=-', r['out']): st['observation: accepted with a negative device timeout'] += 1
         elif s: st['fuzz outcome: VIOLATION ' + s[:60]] += 1
         else: st['fuzz outcome: rejected, exit %d: %s' % (r['exit'], re.sub(r'\d+', 'N', cls)[:48])] += 1
-        for h in (how if isinstance(how, list) else [how]): st['mutation: ' + h] += 1
+        for h in how: st['mutation: ' + h] += 1
     sc.close()
-    sample = [dict(how=h, size=len(t), result=(r['out'][:60] or diag_class(r))) for (t, h, e), r in list(zip(cases, res))[-3:]]
+    sample = [dict(how=h, size=len(t), result=(r['out'][:60] or diag_class(r))) for (t, h, e, x), r in list(zip(cases, res))[-3:]]
     st['slowest case (ms)'] = slow
     return dict(n=len(cases), distinct=len(seen), diffs=[], violations=V, stats=st, sample=sample)
 
@@ -829,15 +852,18 @@ class LexLayer:
             elif kind == 'file':
                 if rp.get('text') is None:
                     print('the input was too large to be stored; re-run the unit: seed=%s index=%s' % (rp.get('seed'), rp.get('index'))); return 1
-                text = base64.b64decode(rp['text'])
+                text = base64.b64decode(rp['text']); extra = base64.b64decode(rp['extra']) if rp.get('extra') is not None else None
                 keep = os.path.join(REPLAYS, 'C18-input-%s.conf' % hashlib.sha1(text).hexdigest()[:10])
                 os.makedirs(REPLAYS, exist_ok=True)
+                if extra is not None:
+                    with open(keep + '.inc', 'wb') as f: f.write(extra)
+                    text = text.replace(b'@INC@', (keep + '.inc').encode())
                 with open(keep, 'wb') as f: f.write(text)
                 print('input (%d bytes, mutations: %s) written to %s' % (len(text), rp.get('how'), keep))
                 print('run:  %s file %s' % (binary, keep))
                 r = run_batch('file', [sc.write('m.conf', text)])[0]
                 print('C    : exit=%d sig=%d timeout=%d ms=%d %s | %s' % (r['exit'], r['sig'], r['to'], r['ms'], r['out'].strip()[:600], brief(r['err'], 2000).strip()))
-                s = c18_predicate(r, text, sc.d)
+                s = c18_predicate(r, text + (extra or b''), sc.d)
                 if s: print('PREDICATE', s); rc = 1
                 if v and str(v.get('sig', '')).startswith('C18 regression') and not s:
                     print('expected', v.get('want')); rc = 1
